@@ -61,6 +61,10 @@ def step (s : St) (toks : List String) : St × String :=
   | ["rollback"] => if s.mode ≠ .write then bad else
     ({ s with store := s.store.rollback, mode := .none, handles := [] }, "ok")
   | ["reopen"] => ({ s with store := s.store.reopen, mode := .none, handles := [] }, "ok")
+  | ["raw"] => if s.mode ≠ .none then bad else
+    -- the whole committed flat store, sorted by the hex form of the keys (as the harness sorts its listing)
+    let ents := (s.store.committed.map (fun e => showChars e.1 ++ "=" ++ showChars e.2)).mergeSort (fun a b => a ≤ b)
+    (s, if ents.isEmpty then "raw -" else "raw " ++ ",".intercalate ents)
   | _ =>
   if s.mode = .none then bad else
   match toks with
